@@ -54,13 +54,43 @@ func contentRecs(recs []*model.Rec) []*model.Rec {
 	return out
 }
 
+// nextModeFor picks how the consumer receives messages (fresh or reused Message / buffer) as a
+// function of the image length, so that the cuts of one file go through all four ways.
+func nextModeFor(img []byte) string {
+	return []string{"into_nil", "next_nil", "into_reuse", "next_buf"}[len(img)%4]
+}
+
+// anchorToModel compares a fault-free message read with the content model of the workload
+// (the fault checks themselves compare a reader with itself on the undamaged file).
+func anchorToModel(mode readerMode, full *seqResult, w *world) string {
+	if mode != "scan" && mode != "indexed0" {
+		return ""
+	}
+	want := w.content.Messages
+	if len(full.recs) != len(want) {
+		return fmt.Sprintf("%d messages returned, %d were written", len(full.recs), len(want))
+	}
+	for i := range want {
+		if d := model.Diff(want[i], full.recs[i]); d != "" {
+			return fmt.Sprintf("message %d: %s", i, d)
+		}
+	}
+	return ""
+}
+
 func runSeq(mode readerMode, img []byte, cfg scen.Cfg, del scen.Delivery, fault *scen.Fault) *seqResult {
+	return runSeqAgain(mode, img, cfg, del, fault, 0)
+}
+
+// runSeqAgain: pollAgain > 0 makes the consumer call that many more times after the read
+// ended with an error; whatever those calls return is appended to recs (and judged like the rest).
+func runSeqAgain(mode readerMode, img []byte, cfg scen.Cfg, del scen.Delivery, fault *scen.Fault, pollAgain int) *seqResult {
 	res := &seqResult{}
 	// a medium that has failed for good (every Read fails from some call on): the consumer polls a
 	// few more times after the error. Not done for an unreadable byte at one position: a seeking
 	// reader may legitimately get past it on a later call (after a failed metadata read the indexed
 	// iterator goes on to the messages), and the property does not say what such calls return.
-	again := 0
+	again := pollAgain
 	if fault != nil && fault.Sticky && fault.Kind == "read_err_call" {
 		again = 3
 	}
@@ -93,7 +123,7 @@ func runSeq(mode readerMode, img []byte, cfg scen.Cfg, del scen.Delivery, fault 
 		res.srcStats = src.St
 	case "scan":
 		src := simdisk.NewSource(img, del, fault)
-		ir := drive.ReadMessages(src, drive.ReadSpec{UseIndex: false, MetaCB: true, MaxMsgs: 200000, AgainAfterErr: again})
+		ir := drive.ReadMessages(src, drive.ReadSpec{UseIndex: false, MetaCB: true, MaxMsgs: 200000, AgainAfterErr: again, NextMode: nextModeFor(img)})
 		res.again = ir.Again
 		res.recs = ir.Msgs
 		res.terminal = ir.Terminal()
@@ -102,7 +132,7 @@ func runSeq(mode readerMode, img []byte, cfg scen.Cfg, del scen.Delivery, fault 
 		res.srcStats = src.St
 	case "indexed0", "indexed1", "indexed2":
 		src := simdisk.NewSeekSource(img, del, fault)
-		ir := drive.ReadMessages(src, drive.ReadSpec{UseIndex: true, Order: int(mode[7] - '0'), MetaCB: true, MaxMsgs: 200000, AgainAfterErr: again})
+		ir := drive.ReadMessages(src, drive.ReadSpec{UseIndex: true, Order: int(mode[7] - '0'), MetaCB: true, MaxMsgs: 200000, AgainAfterErr: again, NextMode: nextModeFor(img)})
 		res.again = ir.Again
 		res.recs = ir.Msgs
 		res.terminal = ir.Terminal()
